@@ -10,6 +10,20 @@ variable (T : PTables)
 def PartOk (n : Nat) (tp : Str × List Nat) : Prop :=
   tp.1.length = tp.2.length ∧ ∀ p ∈ tp.2, 1 ≤ p ∧ p ≤ n
 
+theorem partOk_shift (n : Nat) (txt : Str) (pos : List Nat) (hl : txt.length = pos.length)
+    (hr : ∀ p ∈ pos, p < n) : PartOk n (txt, pos.map (· + 1)) := by
+  refine ⟨by simpa using hl, ?_⟩
+  intro p hp
+  simp only [List.mem_map] at hp
+  obtain ⟨q, hq, rfl⟩ := hp
+  have := hr q hq
+  omega
+
+theorem filter_inRange (n : Nat) (toks : List Tok)
+    (h : ∀ t ∈ toks, t.txt ≠ [] → TokInRange n t) :
+    ∀ t ∈ toks.filter (fun t => !isLangTok t), t.txt ≠ [] → TokInRange n t :=
+  fun t ht => h t (List.mem_filter.1 ht).1
+
 /-- C01 on the model of the whole filter, for every source text, option record, file system
     and fuel: whenever `tex2txt` returns (and no text flow was extracted outside the root
     document — ghost flag, never set with the bundled modules), text and position list have
@@ -23,6 +37,62 @@ theorem tex2txt_inRange (hw : T.WFInv) (fuel : Nat) (latex : Str) (o : Options) 
       (r.foreign = false → o.unkn = false → PartOk latex.length (r.txt, r.pos)) ∧
       (r.foreign = false → ∀ tp ∈ allParts r.parts, PartOk latex.length tp)
     | _ => True := by
-  sorry
+  have hp := parse_inRange T hw fuel latex o multi fs
+    (if o.extr.isEmpty then [] else (splitOn ',' o.extr []).map (fun s => '\\' :: s))
+  unfold tex2txt
+  dsimp only
+  revert hp
+  generalize ((initParser T fuel o >>= fun _ => parse T fuel latex o.defs
+    (if o.extr.isEmpty then [] else (splitOn ',' o.extr []).map (fun s => '\\' :: s)))
+      (initialState T o multi fs)) = out
+  intro hp
+  rcases out with ⟨toks, st⟩ | m | c | _
+  case fatal => trivial
+  case crash => trivial
+  case outOfFuel => trivial
+  simp only [Post] at hp
+  dsimp only
+  cases multi with
+  | false =>
+    simp only [Bool.not_false, if_true]
+    have hl := getTxtPos_length toks
+    have hrp := replacePhrases_ok T.toTables _ _ o.repl hl
+    refine ⟨?_, ?_, ?_⟩
+    · cases o.unkn <;> cases o.hasRepl <;> simp [hl, hrp.1]
+    · intro hf hu
+      have hr := getTxtPos_range latex.length toks (hp hf)
+      simp only [hu, Bool.false_eq_true, if_false]
+      cases o.hasRepl with
+      | false => exact partOk_shift _ _ _ hl hr
+      | true => exact partOk_shift _ _ _ hrp.1 (fun p h => hr p (hrp.2 p h))
+    · intro _ tp htp
+      simp [allParts] at htp
+  | true =>
+    simp only [Bool.not_true, Bool.false_eq_true, if_false]
+    cases hml : getTxtPosML toks o.lang thresh (List.map (fun r => (r.code, r.chg)) st.rots) with
+    | none => trivial
+    | some pr =>
+      obtain ⟨parts, lc'⟩ := pr
+      dsimp only
+      refine ⟨rfl, fun _ _ => ⟨rfl, fun p hp => by cases hp⟩, ?_⟩
+      intro hf tp htp
+      have hparts := getTxtPosML_parts toks o.lang thresh _ lc' parts hml
+      have hr := getTxtPos_range latex.length _ (filter_inRange latex.length toks (hp hf))
+      simp only [allParts, List.map_map, List.mem_flatten, List.mem_map, Function.comp] at htp
+      obtain ⟨l, ⟨e, he, rfl⟩, hl⟩ := htp
+      simp only [List.mem_map] at hl
+      obtain ⟨tp0, htp0, rfl⟩ := hl
+      split at htp0
+      · simp only [List.mem_map] at htp0
+        obtain ⟨tp1, htp1, rfl⟩ := htp0
+        have h1 := hparts tp1 (by
+          simp only [allParts, List.mem_flatten, List.mem_map]
+          exact ⟨e.2, ⟨e, he, rfl⟩, htp1⟩)
+        have hrp := replacePhrases_ok T.toTables tp1.1 tp1.2 o.repl h1.1
+        exact partOk_shift _ _ _ hrp.1 (fun p h => hr p (h1.2 p (hrp.2 p h)))
+      · have h1 := hparts tp0 (by
+          simp only [allParts, List.mem_flatten, List.mem_map]
+          exact ⟨e.2, ⟨e, he, rfl⟩, htp0⟩)
+        exact partOk_shift _ _ _ h1.1 (fun p h => hr p (h1.2 p h))
 
 end Yalafi
